@@ -95,3 +95,43 @@ Definition field_digest_step (h : N) (f : field) : N :=
   (h * 1000003 + x) mod 2147483647.
 
 Definition fields_digest (fs : list field) : N := fold_left field_digest_step fs 0.
+
+(* ------------------------------------------------------------------ *)
+(* Sequences of calls (case kind A).  The property says the output IS the
+   frame of the inner encoding -- a value, not a view of storage that later
+   calls may reuse.  The harness keeps the very slice each call returned and
+   reads it again (a) after the later calls of the sequence, (b) after
+   overwriting the inner codec's returned bytes and the input message,
+   (c) after overwriting the slices returned by the earlier calls; every such
+   later reading must still satisfy the byte clause for ITS call. *)
+Record seq_call := mkSeqCall {
+  sc_inner : bytes;          (* what the inner codec returned in this call *)
+  sc_out : result;           (* what Marshal returned, read at return time *)
+  sc_later : list bytes      (* the same slice, read again later *)
+}.
+
+Definition C19_call_ok (c : seq_call) : bool :=
+  match sc_out c with
+  | Ok o => C19_ok (sc_inner c) o && C19_fields_ok (sc_inner c) o && verify_frame o
+            && forallb (C19_ok (sc_inner c)) (sc_later c)
+  | Err _ => false           (* kind A only uses inner codecs that succeed *)
+  end.
+
+Definition C19_seq_ok (l : list seq_call) : bool := forallb C19_call_ok l.
+
+(* correspondence for a sequence: every call as the model computes it ... *)
+Definition accept_seq_values (l : list seq_call) : bool :=
+  forallb (fun c => accept (Ok (sc_inner c)) (sc_out c)) l.
+
+(* ... and the returned values never change afterwards (the model's outputs
+   are values; class "alias" when this fails) *)
+Definition seq_stable (l : list seq_call) : bool :=
+  forallb (fun c => match sc_out c with
+                    | Ok o => forallb (bytes_eqb o) (sc_later c)
+                    | Err o => forallb (bytes_eqb o) (sc_later c)
+                    end) l.
+
+(* the sequence as the model produces it: each call is [marshal] of its own
+   inner encoding, and reading a value again gives the same value *)
+Definition model_seq (inners : list bytes) (rereads : nat) : list seq_call :=
+  map (fun p => mkSeqCall p (marshal (Ok p)) (repeat (marshal_ok p) rereads)) inners.
